@@ -322,6 +322,7 @@ structure POracle where
   travFail : Bool := false              -- C08: some enter/leave/raw call failed
   travOps : Nat := 0
   lastErr : Nat := 0
+  lastUsed : Nat := 0                   -- cursor after the previous call (C16)
   deriving Inhabited
 
 structure WOracle where
@@ -693,7 +694,10 @@ def oracleStep (o : OState) (toks : List String) (impl : String) : OState :=
      | _, _, _ => o) |> fun o => setPO o { po with cursor := none, latched := 0 } else
   if op == "ts" || op == "pr" then
     let o := textOracle o po toks impl
-    setPO o { po with cursor := (po.value.map fun v => Cursor.start po.root v), latched := 0, nest := 0 } else
+    let u := match (impl.splitOn " ").getLast? with
+      | some t => if t.startsWith "u" then (dropPrefix t 1).toNat! else po.lastUsed
+      | none => po.lastUsed
+    setPO o { po with cursor := (po.value.map fun v => Cursor.start po.root v), latched := 0, nest := 0, lastUsed := u } else
   let ob := parseObs (match impl.splitOn " | " with | a :: _ => a | [] => impl)
   if !ob.ok then o else
   let o := { o with errHist := o.errHist.modify ob.err (· + 1) }
@@ -711,7 +715,7 @@ def oracleStep (o : OState) (toks : List String) (impl : String) : OState :=
     -- a valid document must be accepted by init
     let o := if v.isSome && ob.ret != "1" then o.flag "C02" s!"@{k} init rejected a well-formed document" else o
     setPO o { doc := doc, md := po.md, root := root, value := v, inited := true,
-              cursor := (if ob.ret == "1" then v.map (Cursor.start root) else none), latched := ob.err, lastErr := ob.err }
+              cursor := (if ob.ret == "1" then v.map (Cursor.start root) else none), latched := ob.err, lastErr := ob.err, lastUsed := ob.used }
   else
   -- C09: the error latch
   let resetting := op == "r" || op == "v"
@@ -727,7 +731,11 @@ def oracleStep (o : OState) (toks : List String) (impl : String) : OState :=
   let o := if isAdvancing op || op == "v" then
       (let o := { o with nCostJudged := o.nCostJudged + 1 }
        let bound := po.doc.size + 1
-       if ob.ncb > bound then o.flag "C16" s!"@{k} {op}: {ob.ncb} tokens processed for a {po.doc.size}-byte buffer" else o)
+       let o := if ob.ncb > bound then o.flag "C16" s!"@{k} {op}: {ob.ncb} tokens processed for a {po.doc.size}-byte buffer" else o
+       -- per call: tokens processed <= bytes the cursor advanced over + a small constant (verify restarts at 0)
+       if op != "v" && ob.ncb > (ob.used - po.lastUsed) + 2 then
+         o.flag "C16" s!"@{k} {op}: {ob.ncb} tokens processed while the cursor moved from {po.lastUsed} to {ob.used}"
+       else o)
     else o
   -- C02: verify verdict and depth code
   let o := if op == "v" && po.inited then
@@ -754,7 +762,7 @@ def oracleStep (o : OState) (toks : List String) (impl : String) : OState :=
     else if op == "gr" || op == "p2w" then (if ob.ret.startsWith "1" then po else { po with travFail := true })
     else if resetting then { po with nest := 0, everEntered := false, travFail := false }
     else po
-  let po := { po with lastErr := ob.err }
+  let po := { po with lastErr := ob.err, lastUsed := ob.used }
   let o := if op == "v" && k == 1 && o.profile == "stream" then
       (let p0 := o.ps.getD 0 {}
        if p0.inited && p0.doc == po.doc && (p0.everEntered || p0.lastErr != 0 || p0.travFail) then
